@@ -35,11 +35,19 @@ RemDomain(d, f, b, rem) == d \div (f ^ NumLayers(d, f, b, rem))
 WellFormed(d, f, b, rem) ==
     /\ \A j \in 1..NumLayers(d, f, b, rem) : d \div (f ^ j) >= 2
     /\ RemDomain(d, f, b, rem) \div b >= 1
-\* the verifier's integer guards on the honest path: degree bound divisible at every layer, remainder within the bound
-GuardsOK(d, f, b, rem) ==
+\* the verifier is told the degree bound only and infers the evaluation domain from it (FriVerifier::new): the smallest power of two
+\* that holds the coefficients, times the blowup.  fromCoefficients = FALSE is the code before fix b19b77e, which took the power of
+\* two above the *degree* (half the domain for a degree bound of 1).
+NextPow2F(x) == IF x <= 1 THEN 1 ELSE CHOOSE p \in {2 ^ i : i \in 1..30} : p >= x /\ p \div 2 < x
+VerifierDomain(maxDegree, b, fromCoefficients) == NextPow2F(IF fromCoefficients THEN maxDegree + 1 ELSE maxDegree) * b
+\* the verifier's integer guards on the honest path: the domain it infers is the prover's, degree bound divisible at every layer,
+\* remainder within the bound
+GuardsOKWith(d, f, b, rem, fromCoefficients) ==
     LET L == NumLayers(d, f, b, rem)  m == d \div b
-    IN  /\ \A j \in 1..L : (m \div (f ^ (j - 1))) % f = 0
+    IN  /\ VerifierDomain(m - 1, b, fromCoefficients) = d
+        /\ \A j \in 1..L : (m \div (f ^ (j - 1))) % f = 0
         /\ RemDomain(d, f, b, rem) \div b <= m \div (f ^ L)
+GuardsOK(d, f, b, rem) == GuardsOKWith(d, f, b, rem, TRUE)
 
 \* ---- Part B ---------------------------------------------------------------------------------------------------
 Strategies == {"honest", "far", "degplus", "corrupt", "tamper", "wrongalpha", "omit", "swap", "adaptive"}
